@@ -357,6 +357,29 @@ class AsyncSrcFuture(AsyncSrc):
         return _FutureLikeStep(self)
 
 
+class AsyncSrcProxy:
+    """An adapter: iterates itself, forwards every other attribute (``aclose`` ...) via ``__getattr__``.
+
+    ``hasattr``/``getattr`` find the forwarded ``aclose``; static look-ups (``inspect.getattr_static``, protocol
+    ``isinstance`` checks) do not.  For a user it is a closeable async iterator like any other.
+    """
+
+    def __init__(self, st: SrcState):
+        self.st = st
+        self._inner = AsyncSrc(st)
+
+    def __aiter__(self) -> "AsyncSrcProxy":
+        return self
+
+    def __anext__(self) -> Any:
+        return self._inner.__anext__()
+
+    def __getattr__(self, name: str) -> Any:
+        if name.startswith("__") or name in ("asend", "athrow"):
+            raise AttributeError(name)
+        return getattr(self._inner, name)
+
+
 async def _async_gen(st: SrcState):
     try:
         while True:
@@ -383,7 +406,7 @@ async def _async_gen(st: SrcState):
 
 FLAVOURS_SYNC = ("list", "tuple", "getitem_seq", "sync_iter", "sync_gen")
 FLAVOURS_ASYNC = ("async_gen", "async_class", "async_class_bare", "async_class_full", "async_class_asend",
-                  "async_class_future")
+                  "async_class_future", "async_class_proxy")
 FLAVOURS = FLAVOURS_SYNC + FLAVOURS_ASYNC
 
 
@@ -412,6 +435,8 @@ def make_source(st: SrcState, flavour: str) -> Any:
         return AsyncSrcAsend(st)
     if flavour == "async_class_future":
         return AsyncSrcFuture(st)
+    if flavour == "async_class_proxy":
+        return AsyncSrcProxy(st)
     raise ValueError(flavour)
 
 
